@@ -156,6 +156,45 @@ def specs(quick, seeds, iters):
     return out
 
 
+def sa_specs(quick, seeds, iters):
+    """C17 only: further parameter points of real_sa, and the pseudo-template `real_sa|nested` (the generic `sa` template
+    used, in a Scope of its own, as the `constraints` step of the `sa` template: two SAs, two temperatures, two schedules).
+
+    * schedules that boil first and freeze within the run: the random walk of the hot phase leaves the current solution
+      worse than the tracked best individual, the frozen phase then only sees candidates relative to the CURRENT one;
+    * objective values around 1e-18 and around 1e18 (absolute differences far below f64::EPSILON / far above 1 / EPSILON);
+    * nested: outer hot / inner frozen, outer frozen / inner hot, both on ordinary schedules; inner runs of 0, 1 and 3 passes."""
+    probs = [REAL(2), REAL(1, 1, 0.0, 4.0), REAL(2, 2, -2.0, 2.0), REAL(3, 3, -8.0, 8.0), REAL(2, 4, -5.0, 5.0)]
+    if not quick:
+        probs += [REAL(3, 5, -1.0, 1.0), REAL(5, 1, -4.0, 12.0), REAL(3, 0, 0.5, 0.75)]
+    pts = []
+    for pr in probs:
+        w = pr["hi"] - pr["lo"]
+        for t0, alpha in ((1e3, 0.3), (1e6, 0.05)) if quick else ((1e3, 0.3), (1e6, 0.05), (1e2, 0.6), (1e12, 0.01)):
+            pts.append(("real_sa", {"t_0": t0, "alpha": alpha, "deviation": 0.15 * w}, pr))
+        nested = [((1e9, 0.9), (1e-9, 0.5, 3)), ((1e-9, 0.9), (1e9, 0.5, 3)), ((1.0, 0.8), (2.0, 0.7, 1)), ((1e3, 0.3), (5.0, 0.25, 0))]
+        if not quick:
+            nested += [((1.0, 0.5), (1.0, 0.5, 2)), ((1e-3, 0.99), (1e3, 0.1, 6))]
+        for (t0, alpha), (it0, ialpha, n) in nested:
+            pts.append(("real_sa|nested", {"t_0": t0, "alpha": alpha, "deviation": 0.1 * w,
+                                           "inner": {"t_0": it0, "alpha": ialpha, "deviation": 0.02 * w, "n": n}}, pr))
+    # objective values on tiny and huge scales (sphere on a domain of width 2e-9 / 2e9: values and differences around
+    # 1e-18 / 1e18), with temperatures of that scale, far below and far above it
+    for pr, unit in ((REAL(2, 0, -1e-9, 1e-9), 1e-18), (REAL(2, 0, -1e9, 1e9), 1e18)):
+        w = pr["hi"] - pr["lo"]
+        for t0, alpha in ((unit, 0.9), (unit * 1e-12, 0.9), (unit * 1e9, 0.2)):
+            pts.append(("real_sa", {"t_0": t0, "alpha": alpha, "deviation": 0.1 * w}, pr))
+        pts.append(("real_sa|nested", {"t_0": unit * 1e-12, "alpha": 0.9, "deviation": 0.1 * w,
+                                       "inner": {"t_0": unit * 1e12, "alpha": 0.5, "deviation": 0.02 * w, "n": 2}}, pr))
+    out = []
+    for (t, params, prob) in pts:
+        for n in iters:
+            for s in seeds:
+                out.append({"run": len(out), "template": t, "params": params, "n": n, "seed": s, "eval": "seq", "prob": prob,
+                            "size_lo": 1, "size_hi": 1})
+    return out
+
+
 def component_specs(quick, seeds, iters):
     """'comp:' pseudo-templates: every shipped variation component between a selection (All, or FullyRandom(k) for odd /
     even parent counts) and an evaluation, on evaluated parents."""
